@@ -93,19 +93,31 @@ func runCost(proto string, p sx.Sx) sx.Sx {
 		return chunks
 	}
 	var pre []sx.Sx
+	var reply, reply0 [][]byte
+	if len(p.List) >= 7 { // the other half of the conversation, so that items are emitted and analysed
+		reply, reply0 = chunksOf(p.List[5]), chunksOf(p.List[6])
+	}
 	if len(p.List) >= 5 {
 		// growth case: the same shape at a smaller size first; the per-byte cost must not grow with the size
-		n0, alloc0, _, end0, _ := measureCost(proto, side, chunksOf(p.List[4]), tail)
-		pre = []sx.Sx{sx.A("n0"), sx.N(n0), sx.A("alloc0"), sx.U(alloc0), sx.A("end0"), sx.A(end0)}
+		n0, alloc0, ms0, end0, _ := measureCost(proto, side, chunksOf(p.List[4]), tail, reply0)
+		for i := 0; i < 2; i++ { // the time of the small run is noisy: the best of three
+			if _, _, m, _, _ := measureCost(proto, side, chunksOf(p.List[4]), tail, reply0); m < ms0 {
+				ms0 = m
+			}
+		}
+		pre = []sx.Sx{sx.A("n0"), sx.N(n0), sx.A("alloc0"), sx.U(alloc0), sx.A("ms0"), sx.I(ms0), sx.A("end0"), sx.A(end0)}
 	}
-	n, alloc, ms, end, items := measureCost(proto, side, chunksOf(p.List[1]), tail)
+	n, alloc, ms, end, items := measureCost(proto, side, chunksOf(p.List[1]), tail, reply)
 	out := []sx.Sx{sx.A("n"), sx.N(n), sx.A("alloc"), sx.U(alloc), sx.A("ms"), sx.I(ms), sx.A("end"), sx.A(end), sx.A("items"), sx.N(items)}
 	return sx.L(append(out, pre...)...)
 }
 
-func measureCost(proto, side string, chunks [][]byte, tail string) (int, uint64, int64, string, int) {
+func measureCost(proto, side string, chunks [][]byte, tail string, reply [][]byte) (int, uint64, int64, string, int) {
 	n := 0
 	for _, b := range chunks {
+		n += len(b)
+	}
+	for _, b := range reply {
 		n += len(b)
 	}
 	d, port := dissectorOf(proto)
@@ -132,6 +144,13 @@ func measureCost(proto, side string, chunks [][]byte, tail string) (int, uint64,
 		err := d.Dissect(bufio.NewReader(&tailReader{chunks: chunks, tail: tail}), r)
 		if err != nil {
 			end = "error"
+		}
+		if reply != nil {
+			other := conn.Server
+			if side == "s" {
+				other = conn.Client
+			}
+			_ = d.Dissect(bufio.NewReader(&tailReader{chunks: reply, tail: "eof"}), other)
 		}
 	}()
 	close(out)
@@ -224,9 +243,9 @@ func costTemplates(proto string) []costTemplate {
 			}
 			return out
 		}
-		recTail := cat(zz(1), []byte("h"), zz(1), []byte("x"))                                  // after the header count
-		recMid := cat([]byte{0}, zz(0), zz(0), zz(1), []byte("k"), zz(1), []byte("v"))          // attributes .. value
-		record := cat(zz(int64(len(recMid)+1+len(recTail))), recMid, zz(1), recTail)             // length, .., header count 1, header
+		recTail := cat(zz(1), []byte("h"), zz(1), []byte("x"))                         // after the header count
+		recMid := cat([]byte{0}, zz(0), zz(0), zz(1), []byte("k"), zz(1), []byte("v")) // attributes .. value
+		record := cat(zz(int64(len(recMid)+1+len(recTail))), recMid, zz(1), recTail)   // length, .., header count 1, header
 		batchHead := cat(be64(0), be32(int64(49+len(record))), be32(-1), []byte{2}, be32(0), be16(0), be32(0), be64(1700000000000), be64(1700000000000), be64(-1), be16(-1), be32(-1))
 		prodHead := cat(be16(0), be16(3), be32(9), be16(2), []byte("cl"), be16(-1), be16(1), be32(1000), be32(1), be16(1), []byte("t"), be32(1), be32(0))
 		produce := func(before, after []byte) (b, a []byte) {
@@ -234,11 +253,11 @@ func costTemplates(proto string) []costTemplate {
 			wf := cat(prodHead, be32(int64(len(batchHead)+4+len(record))), batchHead, be32(1), record)
 			return cat(be32(int64(len(wf))), before), after
 		}
-		pb1, pa1 := produce(cat(prodHead, be32(int64(len(batchHead)+4+len(record))), batchHead), record)                               // record count
-		pb2, pa2 := produce(cat(prodHead, be32(int64(len(batchHead)+4+len(record))), batchHead, be32(1), zz(int64(len(recMid)+1+len(recTail))), recMid), recTail) // header count
+		pb1, pa1 := produce(cat(prodHead, be32(int64(len(batchHead)+4+len(record))), batchHead), record)                                                                                                                        // record count
+		pb2, pa2 := produce(cat(prodHead, be32(int64(len(batchHead)+4+len(record))), batchHead, be32(1), zz(int64(len(recMid)+1+len(recTail))), recMid), recTail)                                                               // header count
 		pb3, pa3 := produce(cat(prodHead, be32(int64(len(batchHead)+4+len(record))), batchHead, be32(1), zz(int64(len(recMid)+1+len(recTail))), []byte{0}, zz(0), zz(0)), cat([]byte("k"), zz(1), []byte("v"), zz(1), recTail)) // key length
-		pb4, pa4 := produce(cat(prodHead, be32(int64(len(batchHead)+4+len(record))), batchHead, be32(1), zz(int64(len(recMid)+1+len(recTail))), recMid, zz(1)), cat([]byte("h"), zz(1), []byte("x"))) // header key length
-		pb5, pa5 := produce(prodHead, cat(batchHead, be32(1), record))                                                               // record set size
+		pb4, pa4 := produce(cat(prodHead, be32(int64(len(batchHead)+4+len(record))), batchHead, be32(1), zz(int64(len(recMid)+1+len(recTail))), recMid, zz(1)), cat([]byte("h"), zz(1), []byte("x")))                           // header key length
+		pb5, pa5 := produce(prodHead, cat(batchHead, be32(1), record))                                                                                                                                                          // record set size
 		return []costTemplate{
 			{"record-count", "c", pb1, be32, pa1},
 			{"record-header-count", "c", pb2, zz, pa2},
@@ -299,8 +318,16 @@ func genCost(proto string, r *Rand, tier string, emit func(sx.Sx)) {
 		pairs = append(pairs, [2]int{256, 4096})
 	}
 	for _, g := range growthShapes(proto) {
-		for _, kk := range pairs {
-			emit(sx.L(sx.A(g.side), sx.L(sx.B(g.build(kk[1]))), sx.A("eof"), sx.A(fmt.Sprintf("growth-%s=%d", g.label, kk[1])), sx.L(sx.B(g.build(kk[0])))))
+		ps := pairs
+		if strings.HasPrefix(g.label, "distinct-") { // many distinct names: a quadratic term in CPU time only shows at this size
+			ps = [][2]int{{4000, 64000}}
+		}
+		for _, kk := range ps {
+			c := []sx.Sx{sx.A(g.side), sx.L(sx.B(g.build(kk[1]))), sx.A("eof"), sx.A(fmt.Sprintf("growth-%s=%d", g.label, kk[1])), sx.L(sx.B(g.build(kk[0])))}
+			if rp := growthReply(proto, g.label); rp != nil {
+				c = append(c, sx.L(sx.B(rp)), sx.L(sx.B(rp)))
+			}
+			emit(sx.L(c...))
 		}
 	}
 	// well-formed streams of growing size: cost must grow linearly
@@ -343,6 +370,17 @@ type growthShape struct {
 	build func(k int) []byte
 }
 
+// the other half for the shapes that need a whole exchange (so that an item is emitted and analysed)
+func growthReply(proto, label string) []byte {
+	if proto == "http" && strings.HasPrefix(label, "distinct-") {
+		if label == "distinct-response-headers" {
+			return []byte("GET /r HTTP/1.1\r\nHost: h\r\n\r\n")
+		}
+		return []byte("HTTP/1.1 200 OK\r\nContent-Length: 2\r\n\r\nok")
+	}
+	return nil
+}
+
 func growthShapes(proto string) []growthShape {
 	rep := func(k int, unit []byte) []byte { return bytes.Repeat(unit, k) }
 	cat := func(parts ...[]byte) []byte {
@@ -359,8 +397,12 @@ func growthShapes(proto string) []growthShape {
 			{"replies", "s", func(k int) []byte { return rep(k, []byte("+OK\r\n:12\r\n$5\r\nvalue\r\n$-1\r\n*-1\r\n-ERR no\r\n")) }},
 			{"one-array", "s", func(k int) []byte { return cat([]byte(fmt.Sprintf("*%d\r\n", k)), rep(k, []byte("$5\r\nvalue\r\n"))) }},
 			{"nested-arrays", "s", func(k int) []byte { return cat(rep(k, []byte("*1\r\n")), []byte(":1\r\n")) }},
-			{"arrays-of-arrays", "s", func(k int) []byte { return cat([]byte(fmt.Sprintf("*%d\r\n", k)), rep(k, []byte("*2\r\n:1\r\n$1\r\nx\r\n"))) }},
-			{"long-bulk", "c", func(k int) []byte { return []byte(fmt.Sprintf("*2\r\n$3\r\nGET\r\n$%d\r\n%s\r\n", 16*k, strings.Repeat("0123456789abcdef", k))) }},
+			{"arrays-of-arrays", "s", func(k int) []byte {
+				return cat([]byte(fmt.Sprintf("*%d\r\n", k)), rep(k, []byte("*2\r\n:1\r\n$1\r\nx\r\n")))
+			}},
+			{"long-bulk", "c", func(k int) []byte {
+				return []byte(fmt.Sprintf("*2\r\n$3\r\nGET\r\n$%d\r\n%s\r\n", 16*k, strings.Repeat("0123456789abcdef", k)))
+			}},
 		}
 	case "amqp":
 		publish := encFrame(mustSx("(m 1 60 40 ((s 0) (ss #65) (ss #6b) (bits false false)))"))
@@ -458,6 +500,50 @@ func growthShapes(proto string) []growthShape {
 			}},
 			{"query-params", "c", func(k int) []byte {
 				return cat([]byte("GET /r?"), rep(k, []byte("a=b&")), []byte("z=1 HTTP/1.1\r\nHost: h\r\n\r\n"))
+			}},
+			{"distinct-headers", "c", func(k int) []byte {
+				var b bytes.Buffer
+				b.WriteString("GET /r HTTP/1.1\r\nHost: h\r\n")
+				for i := 0; i < k; i++ {
+					fmt.Fprintf(&b, "X-H%07d: v\r\n", i)
+				}
+				b.WriteString("\r\n")
+				return b.Bytes()
+			}},
+			{"distinct-cookies", "c", func(k int) []byte {
+				var b bytes.Buffer
+				b.WriteString("GET /r HTTP/1.1\r\nHost: h\r\nCookie: a=b")
+				for i := 0; i < k; i++ {
+					fmt.Fprintf(&b, "; c%07d=v", i)
+				}
+				b.WriteString("\r\n\r\n")
+				return b.Bytes()
+			}},
+			{"distinct-query-params", "c", func(k int) []byte {
+				var b bytes.Buffer
+				b.WriteString("GET /r?a=b")
+				for i := 0; i < k; i++ {
+					fmt.Fprintf(&b, "&q%07d=v", i)
+				}
+				b.WriteString(" HTTP/1.1\r\nHost: h\r\n\r\n")
+				return b.Bytes()
+			}},
+			{"distinct-form-params", "c", func(k int) []byte {
+				var body bytes.Buffer
+				body.WriteString("a=b")
+				for i := 0; i < k; i++ {
+					fmt.Fprintf(&body, "&f%07d=v", i)
+				}
+				return cat([]byte(fmt.Sprintf("POST /p HTTP/1.1\r\nHost: h\r\nContent-Type: application/x-www-form-urlencoded\r\nContent-Length: %d\r\n\r\n", body.Len())), body.Bytes())
+			}},
+			{"distinct-response-headers", "s", func(k int) []byte {
+				var b bytes.Buffer
+				b.WriteString("HTTP/1.1 200 OK\r\nContent-Length: 2\r\n")
+				for i := 0; i < k; i++ {
+					fmt.Fprintf(&b, "X-H%07d: v\r\n", i)
+				}
+				b.WriteString("\r\nok")
+				return b.Bytes()
 			}},
 			{"h2-data-frames", "c", func(k int) []byte {
 				return h2(func(fr *http2.Framer, enc *hpack.Encoder, hb *bytes.Buffer) {
